@@ -138,8 +138,8 @@ def main(argv=None):
             print(f"VIOLATION property={pid} replay={path}")
         return 1
     if errors:
-        for e in errors[:3]:
-            print("HARNESS-ERROR:\n" + e, file=sys.stderr)
+        for e in errors[:2]:
+            print("HARNESS-ERROR:\n" + (e if len(e) < 3000 else e[:1500] + "\n...\n" + e[-1200:]), file=sys.stderr)
         return 2
     return 0
 
